@@ -51,14 +51,14 @@ REG = {
                      "allocation among <=2 resources x calendar {default, half-day shift, one leave day} x {flat, one container}): complete in "
                      "thorough, seeded 1/8 slice in quick; (b) random core-dialect projects (all resolutions, DAGs, priorities, gaps, pins, "
                      "leaves, limits incl. task limits, teams, zones, nested containers). Every case: engine dates == reference list scheduler "
-                     "(either variant for pinned milestones) and M-pick order law. distinct = (dialect, resolution, #leaves, depth, team sizes, "
+                     "(pinned milestones count as placed from the start) and M-pick order law. distinct = (dialect, resolution, #leaves, depth, team sizes, "
                      "shifts?, limits?, zones?, #dependent tasks, picks reordered vs declaration?, contention?)",
                 quick=dict(cases=3000, budget_s=200, min_nontrivial=150, case_timeout=30),
                 thorough=dict(cases=60000, budget_s=1200, min_nontrivial=800, case_timeout=60),
                 deciding_monitors=["monitor:pick", "tasks-compared"],
                 assumptions=BASE_ASSUME + ["core dialect only (slot-aligned calendars, whole-slot efforts); cases where the reference itself "
                                            "needs more horizon than the engine allotted are skipped and counted",
-                                           "pinned milestones: both placement orders (before the loop / in priority order) are accepted"]),
+                                           "pinned milestones count as placed before the priority loop (they need nobody and their date is given)"]),
     "C09": dict(module="vlib.props.meta", level="exploration",
                 rule="pairs (P, P + intruder): intruder = root-level leaf with strictly lowest priority, random effort/resource/pin/position, "
                      "nothing depends on it; precondition 'same horizon' is observed from project end in both runs; non-trivial = the intruder "
